@@ -200,6 +200,12 @@ class SlotEval:
         self.unresolved = []      # (site, helper, why)
         self.alloc_count = {}
         self.active = set()
+        # seventh round (C22-GUARD): the emitted C conditionals open at each helper emission, per writer object
+        self.cstack = {}          # writer source text -> [(kind, condition text)]   kind in block / if / else / pp
+        self.cpending = {}        # writer -> condition of a brace-less `if (...)` emitted at the end of the previous text
+        self.clast = {}           # writer -> entry closed last (for `} else {`)
+        self.gfacts = []          # (helper, slots, site, conditions, fnq)
+        self.calledfrom = {}      # function -> functions it was inlined into
 
     # ---- sites
     def site(self, cls, fnq, what, node):
@@ -425,6 +431,7 @@ class SlotEval:
             else:
                 text += '\x00%d\x00' % len(marks)
                 marks.append(p)
+        conds_at = self.guard_pass(text, marks, node)
         if not marks and not any(h in text for h in HELPERS):
             return
 
@@ -467,6 +474,7 @@ class SlotEval:
                 continue
             role = HELPERS[name]
             kind = 'role-w' if name in WRITERS else 'role-c'
+            self.gfacts.append((name, tuple(slots), site, conds_at.get(m.start(), ()), fnq))
             for k, s in enumerate(slots):
                 self.facts.append((kind, s, role, site, name, fnq))
                 self.facts.append(('pos', s, k, site, name, fnq))
@@ -482,6 +490,110 @@ class SlotEval:
                     self.facts.append(('pos', mk, 0, self.site(cls, fnq, 'store:Py_TYPE', node), '= Py_TYPE(...)', fnq))
                 elif re.match(r'PyException_GetTraceback\s*\(', rhs):
                     self.facts.append(('pos', mk, 2, self.site(cls, fnq, 'store:GetTraceback', node), '= PyException_GetTraceback(...)', fnq))
+
+    # ---- emitted C conditionals (C22-GUARD)
+    @staticmethod
+    def writer_of(node):
+        f = getattr(node, 'func', None)
+        if isinstance(f, ast.Attribute) and f.attr in ('putln', 'put', 'put_safe'):
+            return node_src(f.value, 80)
+        return None
+
+    @staticmethod
+    def cond_text(s, marks):
+        def nm(m):
+            v = marks[int(m.group(1))]
+            if isinstance(v, Slot):
+                return '<%s>' % slot_name(v)
+            if isinstance(v, Elem):
+                return '<each of %s>' % '/'.join(slot_name(x) for x in v.seq.slots(3))
+            return '<?>'
+        return re.sub(r'\s+', ' ', re.sub(r'\x00(\d+)\x00', nm, s)).strip()
+
+    def guard_pass(self, text, marks, node):
+        """follow the braces / preprocessor lines of one emitted text; -> {offset of a helper call: conditions open there}"""
+        w = self.writer_of(node)
+        track = w is not None
+        w = w or 'code'
+        stack = self.cstack.setdefault(w, []) if track else list(self.cstack.get(w, []))
+        t = re.sub(r'/\*.*?\*/', lambda m: ' ' * len(m.group(0)), text, flags=re.S)
+        out = {}
+        start = 0
+        pend = self.cpending.pop(w, None) if track else None
+        for m in re.finditer(r'(?m)^[ \t]*#[ \t]*(if|ifdef|ifndef|elif|else|endif)\b([^\n]*)|[{};]|\b(__Pyx_\w+)\s*\(', t):
+            tok = m.group(0)
+            if m.group(1):
+                d, rest = m.group(1), self.cond_text(m.group(2), marks)
+                if d in ('if', 'ifdef', 'ifndef'):
+                    stack.append(('pp', '#%s %s' % (d, rest)))
+                elif d in ('elif', 'else'):
+                    old = stack.pop() if stack and stack[-1][0] == 'pp' else ('pp', '#if ?')
+                    stack.append(('pp', '#%s %s after %s' % (d, rest, old[1]) if rest else '#else of %s' % old[1]))
+                elif stack and stack[-1][0] == 'pp':
+                    stack.pop()
+                start = m.end()
+            elif tok == '{':
+                prefix = t[start:m.start()].strip()
+                pm = re.match(r'(?:else\s+)?(?:if|while|for|switch)\s*\(.*\)$', prefix, re.S)
+                if pm:
+                    stack.append(('if', self.cond_text(prefix, marks)))
+                elif prefix == 'else':
+                    last = self.clast.get(w)
+                    stack.append(('else', 'else of ' + (last[1] if last and last[1] else '?')))
+                elif pend and not prefix:
+                    stack.append(('if', pend))
+                else:
+                    stack.append(('block', None))
+                pend = None
+                start = m.end()
+            elif tok == '}':
+                if stack and stack[-1][0] != 'pp':
+                    self.clast[w] = stack.pop()
+                start = m.end()
+            elif tok == ';':
+                start = m.end()
+                pend = None
+            elif m.group(3) in HELPERS:
+                conds = [c for k, c in stack if k != 'block']
+                if pend:
+                    conds.append(pend)
+                prefix = t[start:m.start()]
+                pm = re.match(r'\s*(?:else\s+)?(?:if|while|for)\s*\(', prefix)
+                if pm:
+                    depth, i = 1, pm.end()
+                    while i < len(prefix) and depth:
+                        depth += {'(': 1, ')': -1}.get(prefix[i], 0)
+                        i += 1
+                    if depth == 0:
+                        conds.append(self.cond_text(prefix[:i], marks))
+                elif re.match(r'\s*else\b', prefix):
+                    conds.append('else')
+                out[m.start()] = tuple(conds)
+        if track:
+            tail = t[start:].strip()
+            if re.match(r'(?:else\s+)?(?:if|while|for)\s*\(.*\)$', tail, re.S) and tail.count('(') == tail.count(')'):
+                self.cpending[w] = self.cond_text(tail, marks)
+            elif pend and not tail:
+                self.cpending[w] = pend
+        return out
+
+    def cs_save(self):
+        return {k: list(v) for k, v in self.cstack.items()}
+
+    @staticmethod
+    def cs_merge(pre, a, b):
+        out = {}
+        for k in set(a) | set(b):
+            va, vb, vp = a.get(k, []), b.get(k, []), pre.get(k, [])
+            if va == vb or vb == vp:
+                out[k] = va
+            elif va == vp:
+                out[k] = vb
+            elif len(va) == len(vb):
+                out[k] = [x if x == y else ('if', '%s | %s' % (x[1], y[1])) for x, y in zip(va, vb)]
+            else:
+                out[k] = va if len(va) > len(vb) else vb
+        return out
 
     # ---- statements
     def merge(self, pre, a, b):
@@ -563,16 +675,23 @@ class SlotEval:
     def walk(self, stmts, env, cls, fnq):
         for st in stmts:
             if isinstance(st, (ast.FunctionDef, ast.AsyncFunctionDef)):
+                keep = self.cstack, self.cpending
+                self.cstack, self.cpending = {}, {}
                 self.walk(st.body, dict(env), cls, fnq + '.' + st.name)
+                self.cstack, self.cpending = keep
             elif isinstance(st, ast.ClassDef):
                 continue
             elif isinstance(st, ast.If):
                 self.exprs(st.test, env, cls, fnq)
                 pre = dict(env)
                 a = dict(env)
+                cpre = self.cs_save()
                 self.walk(st.body, a, cls, fnq)
+                ca = self.cs_save()
+                self.cstack = {k: list(v) for k, v in cpre.items()}
                 b = dict(env)
                 self.walk(st.orelse, b, cls, fnq)
+                self.cstack = self.cs_merge(cpre, ca, self.cs_save())
                 env.clear()
                 env.update(self.merge(pre, a, b))
             elif isinstance(st, (ast.For, ast.AsyncFor)):
@@ -624,6 +743,10 @@ class SlotEval:
     def run_fn(self, cls, fn, env, fnq):
         if fnq in self.active or len(self.active) > 4:
             return
+        if not self.active:
+            self.cstack, self.cpending, self.clast = {}, {}, {}
+        for a in self.active:
+            self.calledfrom.setdefault(fnq, set()).add(a)      # fnq is emitted as a part of a (self.helper() inlined)
         self.active.add(fnq)
         try:
             e = {}
@@ -736,8 +859,9 @@ def role_problems(facts):
     return out
 
 
-def zero_problems(facts):
-    """functions that zero slots they neither filled nor consumed -> [(fn, group, site, slots)]"""
+def zero_problems(facts, calledfrom=None):
+    """functions that zero slots they neither filled nor consumed (themselves or in a self.helper() they call) -> [(fn, group, site, slots)]"""
+    calledfrom = calledfrom or {}
     per_fn = {}
     for f in facts:
         if f[1] is None:
@@ -753,11 +877,93 @@ def zero_problems(facts):
         if not zeroed:
             continue
         handled = {f[1].key() for f in fs if f[0] in ('role-w', 'role-c', 'decref')}
+        handled |= {f[1].key() for f in facts if f[1] is not None and f[0] in ('role-w', 'role-c', 'decref') and fnq in calledfrom.get(f[5], ())}
         inst.append((fnq, sorted(zeroed)))
         missing = sorted(k for k in zeroed if k not in handled)
         if missing:
             out.append((fnq, zeroed[missing[0]], missing))
     return inst, out
+
+
+CONTROL_GUARD = '''
+class T:
+    def gen(self, code):
+        six = tuple([code.funcstate.allocate_temp(t, manage_ref=False) for _ in range(6)])
+        self.catch(code, six)
+        self.clean(code, six)
+    def catch(self, code, v):
+        code.putln("__Pyx_ExceptionSwap(&%s, &%s, &%s);" % v[3:])
+    def clean(self, code, v):
+        code.putln("if (%s) {" % v[4])
+        code.putln("__Pyx_ExceptionReset(%s, %s, %s);" % v[3:])
+        code.putln("}")
+'''
+
+
+def guard_problems(gfacts):
+    """SAVED triples: the emitted C conditions around the helper that restores them equal those around the helper that saved them
+    -> (instances [(site, sample)], problems [(site, group, message)])"""
+    by = {}
+    for name, slots, site, conds, fnq in gfacts:
+        if HELPERS[name] != 'SAVED':
+            continue
+        by.setdefault(group_name(slots[0]), []).append((name, site, conds, fnq))
+    inst, out = [], []
+    for grp, fs in sorted(by.items()):
+        ws = [f for f in fs if f[0] in WRITERS]
+        cs = [f for f in fs if f[0] in CONSUMERS]
+        for f in fs:
+            inst.append((f[1], '%s: %s of %s under %s' % (f[1], f[0], grp, ' && '.join(f[2]) or 'no emitted condition')))
+        if not ws or not cs:
+            continue
+        wconds, cconds = {f[2] for f in ws}, {f[2] for f in cs}
+        for name, site, conds, fnq in cs:
+            if conds not in wconds:
+                w = ws[0]
+                extra = [c for c in conds if c not in w[2]] or list(conds)
+                out.append((site, grp, '%s emits %s for %s inside the emitted C condition `%s`, but the triple was filled by %s (%s) %s: on the paths where the condition '
+                            'does not hold the previous sys.exc_info() is not put back (a saved state of NULL/NULL/NULL means "no exception was being handled" and must be '
+                            'restored like any other: the exception installed in between stays the handled one, sys.exc_info() / __context__ of later exceptions are stale)'
+                            % (fnq, name, grp, ' && '.join(extra), w[0], w[3], 'under `%s`' % ' && '.join(w[2]) if w[2] else 'unconditionally')))
+        for name, site, conds, fnq in ws:
+            if conds not in cconds:
+                c = cs[0]
+                out.append((site, grp, '%s emits %s for %s under the emitted C condition `%s`, but %s (%s) hands the triple back %s: when the save did not run the '
+                            'restore installs an empty / stale triple as sys.exc_info()' % (fnq, name, grp, ' && '.join(conds) or 'none', c[0], c[3],
+                                                                                     'under `%s`' % ' && '.join(c[2]) if c[2] else 'unconditionally')))
+    return inst, out
+
+
+def _control_eval(ctx, src):
+    ctl = SlotEval(ctx, [])
+    ctl.cur_rel = '<control>'
+    tree = ast.parse(src)
+
+    class FakeCls:
+        qual = 'T'
+        module = type('M', (), {'rel': '<control>', 'src': src})()
+        methods = {f.name: f for f in tree.body[0].body}
+    ctl.ix = type('IX', (), {'find_method': staticmethod(lambda c, n: (c, c.methods[n]) if n in c.methods else None)})()
+    ctl.run_fn(FakeCls, FakeCls.methods['gen'], {}, 'T.gen')
+    return ctl
+
+
+def rule_guard(ctx, ev):
+    g = Rule('C22-GUARD', 'the previous sys.exc_info() saved by __Pyx_ExceptionSave/Swap is put back by __Pyx_ExceptionReset under exactly the emitted C conditions '
+             '(if / else / loop blocks, brace-less if, #if arms) under which it was saved - in particular never depending on whether a saved slot is NULL', floor=4)
+    inst, probs = guard_problems(ev.gfacts)
+    for site, sample in inst:
+        g.inst(site, sample=sample)
+    seen = set()
+    for site, grp, msg in probs:
+        key = '%s:guard:%s' % (site, grp)
+        if key in seen:
+            continue
+        seen.add(key)
+        rel, line = ev.sites[site]
+        g.violate(key, rel, line, msg)
+    g.positive_control(bool(guard_problems(_control_eval(ctx, CONTROL_GUARD).gfacts)[1]), '__Pyx_ExceptionReset emitted inside `if (saved value) {`')
+    return g
 
 
 def rules_slots(ctx):
@@ -800,7 +1006,7 @@ def rules_slots(ctx):
 
     z = Rule('C22-ZERO', 'a generator function that emits `slot = 0;` for exception-state slots it did not fill itself has passed them to __Pyx_ExceptionReset / '
              '__Pyx_ErrRestore or decref\'ed them in the same function (otherwise the saved sys.exc_info() is dropped, not restored)', floor=3)
-    inst, probs = zero_problems(ev.facts)
+    inst, probs = zero_problems(ev.facts, ev.calledfrom)
     for fnq, ks in inst:
         z.inst(fnq + ':zero', sample='%s zeroes %d slot(s)' % (fnq, len(ks)))
     for fnq, f, missing in probs:
@@ -811,7 +1017,7 @@ def rules_slots(ctx):
                       fnq, ', '.join(slot_name(Slot(*k)) for k in missing), 'them' if len(missing) > 1 else 'it'))
     zf = [('zero', Slot(('local', 'f', 'v'), 3), None, 's', '= 0', 'f'), ('role-w', Slot(('local', 'f', 'v'), 3), 'SAVED', 's0', 'w', 'g')]
     z.positive_control(bool(zero_problems(zf)[1]), 'slot zeroed without a consumer in the function')
-    return [r, z]
+    return [r, z, rule_guard(ctx, ev)]
 
 
 # ================================================================================================= C22-FSTATE
